@@ -157,3 +157,29 @@ package websocket
 //@   ensures [close-ack] fin && !big && op == 8 && old(s.state) == StateClosedByUs ==> err == nil && s.state == StateCloseAcked && len(s.pendingFrames) == n0
 //@   ensures [order] forall j :: 0 <= j && j < n0 ==> s.pendingFrames[j] == old(s.pendingFrames[j])
 //@   ensures [inv] qInv(s)
+
+// handleFrame: every framing violation is reported, closes the stream from our side and queues
+// exactly one Close(1002) - unless our Close is already on its way, in which case nothing more
+// may be queued (RFC 6455 5.5.1: no frames after a Close).
+//@ func (*Stream).handleFrame
+//@   prop C08, C15
+//@   requires qInv(s) && len(f) >= 2 && frameWF(f) && (s.state == StateActive || s.state == StateClosedByUs)
+//@   requires s.role == RoleClient || s.role == RoleServer
+//@   let op     = f[0] & 15
+//@   let fin    = f[0] & 128 != 0
+//@   let rsv    = f[0] & 112 != 0
+//@   let masked = f[1] & 128 != 0
+//@   let ctl    = op & 8 != 0
+//@   let n0     = len(s.pendingFrames)
+//@   let violation = rsv || (s.role == RoleClient && masked) || (s.role == RoleServer && !masked) ||
+//@                   (ctl && (!fin || declLen(f) > 125 || (op != 8 && op != 9 && op != 10))) ||
+//@                   (!ctl && op > 2)
+//@   ensures [reported] violation ==> err != nil
+//@   ensures [closes] err != nil ==> s.state == StateClosedByUs
+//@   ensures [close-1002] err != nil && old(s.state) == StateActive ==> len(s.pendingFrames) == n0 + 1 &&
+//@           (*s.pendingFrames[n0])[0] == 136 && int((*s.pendingFrames[n0])[1] & 127) == 2 && wireFrame(s, s.pendingFrames[n0])
+//@   ensures [close-1002-code] err != nil && old(s.state) == StateActive && s.role == RoleServer ==>
+//@           int((*s.pendingFrames[n0])[2])*256 + int((*s.pendingFrames[n0])[3]) == 1002
+//@   ensures [single-close] err != nil && old(s.state) == StateClosedByUs ==> len(s.pendingFrames) == n0
+//@   ensures [order] forall j :: 0 <= j && j < n0 ==> s.pendingFrames[j] == old(s.pendingFrames[j])
+//@   ensures [inv] qInv(s)
